@@ -283,6 +283,10 @@ class _StepGraph:
         to_return += [sorted(layer) for layer in layers]
         return to_return
 
+    def is_sequential(self, path: HierarchyPath) -> bool:
+        """Whether ``path`` is listed among the sequential steps."""
+        return path in self._sequential_steps
+
     def remove(self, path: HierarchyPath) -> None:
         """Delete a step based on its path.
 
@@ -608,7 +612,10 @@ class Engine:
         assert step.is_step()
         self._step_paths[path] = step
         if relative_dependencies is None:
-            self._step_graph.add_sequential(path)
+            # (a step that replaces the one registered at this path takes
+            # over its place: it is not listed, and run, a second time)
+            if not self._step_graph.is_sequential(path):
+                self._step_graph.add_sequential(path)
             return
         dependencies = [
             path + ('..',) + dep for dep in relative_dependencies]
@@ -632,6 +639,11 @@ class Engine:
             step = cast(Step, process)
             self._add_step_path(step, path, get_in(flow, path))
         else:
+            if self.process_paths.get(path) is not process \
+                    and hasattr(self, 'front'):
+                # another process (or none) was registered here: the
+                # newcomer starts its own schedule at the current time
+                self.front.pop(path, None)
             self.process_paths[path] = process
 
     def _find_process_paths(
